@@ -144,19 +144,21 @@ func (e *c15Env) voteOrder() {
 			var pairedRec *recWrite
 			for i := range recs {
 				rw := &recs[i]
-				if len(rw.site.Call.Args) != 4 {
+				// the record written: the *types.Vote argument of setVote, wherever it stands
+				rec := c15TypedArg(rw.site.Fn, rw.site.Call, c15IsPtrTo(an.Module+"/types", "Vote"))
+				if rec == nil {
 					continue
 				}
 				rr := c15ResolverOf(rw.f)
 				if rw.f.TopDecl() == f.TopDecl() {
-					if r.SameValue(a.Call.Args[0], rw.site.Call.Args[3]) {
+					if r.SameValue(a.Call.Args[0], rec) {
 						paired, pairedRec = true, rw
 					}
 					continue
 				}
 				// another method of the same receiver type: same field
 				fa := an.FieldOf(r.info, av.Expr)
-				if av.Expr != nil && fa != nil && fa == rr.Field(rw.site.Call.Args[3]) && c15SameRecvType(f, rw.f) {
+				if av.Expr != nil && fa != nil && fa == rr.Field(rec) && c15SameRecvType(f, rw.f) {
 					paired, pairedRec = true, rw
 				}
 			}
